@@ -5,5 +5,5 @@ CONSTANTS
   MenuSize = 8
   Part = 0
   Parts = 1
-INVARIANTS SourceCoversMatches TypedSourceOnce MatcherAgrees OrderLimitValid
+INVARIANTS SourceCoversMatchesX TypedSourceOnceX MatcherAgreesX OrderLimitValid
 CHECK_DEADLOCK FALSE
